@@ -32,6 +32,9 @@ def libraries():
     for v in ODD_VALUES:
         out.append(lambda v=v: Library([Entry("article", "h", [Field("title", "ok"), Field("month", v), Field("author", v), Field("year", v)]), String("hs", v)]))
     out.append(lambda: Library([Entry("article", "h", [Field(2020, "x"), Field("title", "{T}")])]))
+    # the bad field last / in the middle: the call fails after part of the entry was already processed
+    out.append(lambda: Library([Entry("article", "h", [Field("title", "{T}"), Field("a", "1"), Field(2020, "x")])]))
+    out.append(lambda: Library([Entry("article", "ok", [Field("b", "{1}")]), Entry("article", "h", [Field("A", "1"), Field(None, "x"), Field("a", "2")]), Entry("article", "ok2", [Field("c", "{2}")])]))
     out.append(lambda: Library([Entry("article", "h", [Field(None, "x"), Field("b", "y"), Field("B", "z")])]))
     out.append(lambda: Library([Entry("article", "h", [Field("a", "{x}")]), UnknownBlock()]))
     out.append(lambda: Library([ParsingFailedBlock(error=Exception("e"), raw=None), Entry("article", "h2", [Field("a", "{x}")])]))
